@@ -3,6 +3,7 @@
 package network
 
 import (
+	"os"
 	"bytes"
 	"errors"
 
@@ -181,8 +182,9 @@ func H_C18_GetBlockTxn() {
 	h_stubs()
 	blk := new(btc.Block)
 	blk.Txs = []*btc.Tx{{Raw: []byte{1}}, {Raw: []byte{2}}}
+	known := zzverif.Bool("block.known")
 	zzverif.Replace("network.GetchBlockForBIP152", func(h *btc.Uint256) *chain.BlckCachRec {
-		if zzverif.Bool("block.known") {
+		if known {
 			return &chain.BlckCachRec{Block: blk}
 		}
 		return nil
@@ -192,6 +194,28 @@ func H_C18_GetBlockTxn() {
 	maxL := 60
 	L := zzverif.Len("L", 0, maxL)
 	pl := zzverif.Bytes("pl", L)
+	if !zzverif.Symbolic() && known && L >= 32 {
+		// native realiser of the stubbed block lookup: a real block store holding a block of two transactions, asked for by its hash
+		dir, _ := os.MkdirTemp("", "zzverif_c18_")
+		defer os.RemoveAll(dir)
+		db := chain.NewBlockDBExt(dir, nil)
+		tx := func(lock byte) []byte {
+			t := []byte{1, 0, 0, 0, 1}
+			t = append(t, make([]byte, 36)...)
+			t = append(t, 0, 0xff, 0xff, 0xff, 0xff, 1)
+			t = append(t, make([]byte, 8)...)
+			return append(t, 0, lock, 0, 0, 0)
+		}
+		raw := append(make([]byte, 80), 2)
+		raw = append(append(raw, tx(1)...), tx(2)...)
+		if bl, er := btc.NewBlock(raw); er == nil && bl.BuildTxList() == nil {
+			old := common.BlockChain.Blocks
+			common.BlockChain.Blocks = db
+			defer func() { common.BlockChain.Blocks = old }()
+			db.BlockAdd(1, bl)
+			copy(pl[:32], bl.Hash.Hash[:])
+		}
+	}
 	panicked := zzverif.Panics(func() { c.ProcessGetBlockTxn(pl) })
 	zzverif.Assert("C18.getblocktxn.nopanic", !panicked)
 	h_locks_free(c, "C18.getblocktxn.unlocked")
